@@ -314,8 +314,9 @@ pub fn substitutions(tier: Tier) -> Vec<CorpusCase> {
         // pairwise (long word excluded from pairs to bound the size)
         for si in 0..slots.len() {
             for sj in (si + 1)..slots.len() {
-                for (vi, v) in BOUNDARY.iter().enumerate() {
-                    for (wi, w) in BOUNDARY.iter().enumerate() {
+                // (pairs over the first 12 boundary values: the later additions appear in the single substitutions)
+                for (vi, v) in BOUNDARY.iter().enumerate().take(12) {
+                    for (wi, w) in BOUNDARY.iter().enumerate().take(12) {
                         let mut f = defaults.clone();
                         f[si] = v;
                         f[sj] = w;
